@@ -2969,7 +2969,14 @@ fn main() {
         // (1) small-scope exhaustive enumeration
         n += 1;
         if thorough {
-            ops.push(format!("enum {} 7 3 -", n));
+            // every sequence of length <= 6, and every sequence of length 7 that starts with an insert (a sequence
+            // that starts with a remove / alias on the empty registry is a refused call followed by a sequence
+            // of length 6): a fifth of the 15^7 replays, which keeps the tier inside its budget on a busy machine
+            ops.push(format!("enum {} 6 2 -", n));
+            for pre in ["a", "b", "c"] {
+                n += 1;
+                ops.push(format!("enum {} 6 3 {}", n, pre));
+            }
         } else if search {
             ops.push(format!("enum {} 6 2 -", n));
         } else {
